@@ -1,18 +1,19 @@
 #!/bin/bash
-# Sensitivity proof: apply each mutant patch to /repo, run the matching quick check,
-# expect a violation (exit 1), revert. Usage: tools/mutants.sh [glob-prefix]
-# Results are appended to /verif/mutants/RESULTS.txt
+# Sensitivity proof: apply each mutant patch to a scratch copy of /repo, run the matching quick
+# check on the copy, expect a violation (exit 1). Usage: tools/mutants.sh [glob-prefix]
+# Results are appended to /verif/mutants/RESULTS.txt. /repo itself is never modified.
 cd /verif || exit 2
 pat=${1:-}
-if [ -n "$(git -C /repo status --porcelain --untracked-files=no)" ]; then echo "refusing: /repo has uncommitted changes"; exit 2; fi
+. /verif/tools/scratch.sh
+scratch_setup
 for p in mutants/${pat}*.patch; do
   name=$(basename "$p" .patch)
   id=$(echo "$name" | cut -d_ -f1 | tr a-z A-Z)
-  git -C /repo apply "/verif/$p" || { echo "$name: patch does not apply"; continue; }
+  scratch_reset
+  (cd "$SCRATCH_REPO" && git apply "/verif/$p") || { echo "$name: patch does not apply"; continue; }
   t0=$(date +%s)
   out=$(./check "$id" quick 2>&1); rc=$?
   t1=$(date +%s)
-  git -C /repo checkout -- .
   line=$(echo "$out" | grep -m1 "^violation class" )
   echo "$name rc=$rc $((t1-t0))s $line" | tee -a mutants/RESULTS.txt
 done
